@@ -21,6 +21,13 @@ impl WorkTokenizedBuffer {
             source_len,
         }
     }
+    /// Mirror of the shadow token list for the one real observer that cannot be stubbed
+    /// (`iter_token_infos` returns an opaque iterator type).
+    pub(crate) fn verif_set_tokens(&mut self, toks: &[TokenInfo; 3], n: usize) {
+        self.token_infos.clear();
+        self.token_infos.extend_from_slice(toks);
+        self.token_infos.truncate(n);
+    }
     pub(crate) fn verif_literals(&self) -> &str {
         self.string_literals_buffer.as_str()
     }
@@ -87,6 +94,8 @@ pub(crate) mod shadow {
     //! assertions are copied as assertions.
     use super::*;
     pub(crate) const CAP: usize = 8;
+    /// look-behind scans (last default-channel token) inspect at most this many tokens
+    pub(crate) const SCAN_CAP: usize = 5;
     pub(crate) const LCAP: usize = 16;
     pub(crate) static mut TOK_N: usize = 0;
     pub(crate) static mut TOK: [std::mem::MaybeUninit<TokenInfo>; CAP] = [const { std::mem::MaybeUninit::uninit() }; CAP];
@@ -196,7 +205,8 @@ pub(crate) mod shadow {
                     assert!((line.0 as usize) < LINE_N, "Line index out of bounds");
                     assert!(byte_offset >= LINE[line.0 as usize].assume_init().byte_offset, "Token byte offset before line byte offset");
                 }
-                let mut i = CAP - 1;
+                assert!(TOK_N <= SCAN_CAP - 1, "shadow scan capacity");
+                let mut i = SCAN_CAP - 1;
                 while i > 0 {
                     if i > at && i <= TOK_N {
                         TOK[i] = TOK[i - 1];
@@ -264,9 +274,10 @@ pub(crate) mod shadow {
         }
         pub(crate) fn sh_last_token_info_on_default_channel(&self) -> Option<&TokenInfo> {
             unsafe {
+                assert!(TOK_N <= SCAN_CAP, "shadow scan capacity");
                 let mut best = CAP;
                 let mut i = 0;
-                while i < CAP {
+                while i < SCAN_CAP {
                     if i < TOK_N && (*std::ptr::addr_of!(TOK))[i].assume_init_ref().channel == TokenChannel::DEFAULT {
                         best = i;
                     }
@@ -281,9 +292,10 @@ pub(crate) mod shadow {
         }
         pub(crate) fn sh_last_token_info_on_default_channel_mut(&mut self) -> Option<&mut TokenInfo> {
             unsafe {
+                assert!(TOK_N <= SCAN_CAP, "shadow scan capacity");
                 let mut best = CAP;
                 let mut i = 0;
-                while i < CAP {
+                while i < SCAN_CAP {
                     if i < TOK_N && (*std::ptr::addr_of!(TOK))[i].assume_init_ref().channel == TokenChannel::DEFAULT {
                         best = i;
                     }
